@@ -139,8 +139,9 @@ impl Visitor<Diagnostic> for LibraryRenderer {
             self.write_ws(format!("{}#", data_type.as_id().original()).as_str());
             let start = self.buffer.len();
             self.visit_signed_integer(&node.value)?;
-            let digits = self.buffer.split_off(start);
-            self.write(digits.trim());
+            // No blank may stand between the '#', the sign and the digits
+            let digits: String = self.buffer.split_off(start).split_whitespace().collect();
+            self.write(digits.as_str());
             return Ok(());
         }
         self.visit_signed_integer(&node.value)
